@@ -146,6 +146,10 @@ type machineRun struct {
 	Balances map[string]map[string]*big.Int
 	TxMeta   map[string]string
 	AccMeta  map[string]map[string]string
+
+	// package-level values this very run left damaged (set by globalGuard.run, which has
+	// restored them since)
+	GlobalsMutated []globalDamage
 }
 
 func silentPrinter(c chan machine.Value) {
@@ -405,6 +409,28 @@ func replayObj(text string, env *gen.Env, extra map[string]any) map[string]any {
 type stage struct {
 	Name  string
 	Progs func(yield func(*gen.Program) bool)
+}
+
+// stagesFirst reorders a stage list: the stages whose name starts with one of the
+// prefixes come first, in the order of the prefixes; the others follow in their own
+// order. Nothing is added or dropped.
+func stagesFirst(in []stage, prefixes ...string) []stage {
+	var out []stage
+	taken := make([]bool, len(in))
+	for _, prefix := range prefixes {
+		for i, st := range in {
+			if !taken[i] && strings.HasPrefix(st.Name, prefix) {
+				out = append(out, st)
+				taken[i] = true
+			}
+		}
+	}
+	for i, st := range in {
+		if !taken[i] {
+			out = append(out, st)
+		}
+	}
+	return out
 }
 
 type stageStat struct {
